@@ -145,6 +145,76 @@ def run_sqrt_ends(which):
     return run
 
 
+SQRT_CASES = {
+    # name: (lower kwargs, upper kwargs) -- a_* absent means a wall end (no sqrt term there)
+    "wall.wall": (("b_lower",), ("b_upper",)),
+    "X.wall": (("b_lower", "a_lower"), ("b_upper",)),
+    "wall.X": (("b_lower",), ("b_upper", "a_upper")),
+    "-.wall": ((), ("b_upper",)),
+    "wall.-": (("b_lower",), ()),
+}
+
+
+def _sqrt_setup(ctx, case, fn):
+    L, N, Nn = ctx.real("L"), ctx.real("N"), ctx.real("N_norm")
+    ctx.assume(And(L > 0, N >= 1, Nn >= 1))
+    kw = {}
+    for k in SQRT_CASES[case][0] + SQRT_CASES[case][1]:
+        kw[k] = ctx.real(k)
+        ctx.assume(kw[k] > 0)
+    return L, N, Nn, kw, fn(region(), L, N, Nn, **kw)
+
+
+def run_sqrt_extrap(case, side):
+    """The exponential continuation beyond a wall end matches value, gradient and curvature
+    of the interior formula (what the function documents; gradient continuity is what makes
+    guard cells continue the requested end spacing)."""
+
+    def run(ctx):
+        from hypnotoad.core import equilibrium as E
+
+        fn = transform.recompile(E.EquilibriumRegion.getSqrtPoloidalDistanceFunc, report=None)
+        L, N, Nn, kw, f = _sqrt_setup(ctx, case, fn)
+        u = lambda x: x[()] if isinstance(x, numpy.ndarray) else x
+        i_in, i_out = ctx.real("i_in"), ctx.real("i_out")
+        ctx.assume(And(i_in > 0, i_in < N, (i_out < 0) if side == "lower" else (i_out > N)))
+        s_in, s_out = u(f(i_in)), u(f(i_out))
+        jets = Jets(ctx, {i_in: {"i": 1}, i_out: {"i": 1}}, const=lambda nm: True)
+        edge = 0.0 * N if side == "lower" else N
+        with spec_mode():
+            a0, b0 = jets.at(s_in, i_in, edge), jets.at(s_out, i_out, edge)
+            ctx.oblige(a0 == b0, "value continuous at the %s wall" % side)
+            d_in, d_out = jets.D(s_in, "i"), jets.D(s_out, "i")
+            ctx.oblige(jets.at(d_in, i_in, edge) == jets.at(d_out, i_out, edge), "gradient continuous at the %s wall" % side)
+            ctx.oblige(jets.at(jets.D(d_in, "i"), i_in, edge) == jets.at(jets.D(d_out, "i"), i_out, edge), "curvature continuous at the %s wall" % side)
+            ctx.oblige(d_out > 0, "strictly increasing beyond the %s wall" % side)
+        return f
+
+    return run
+
+
+def run_sqrt_mirror(case, zone):
+    """s_mirror(N - i) = L - s(i): exchanging the lower and upper parameters gives the
+    reflected spacing, inside the region and beyond either wall (C16)."""
+    mirror = {"wall.wall": "wall.wall", "X.wall": "wall.X", "wall.X": "X.wall", "-.wall": "wall.-", "wall.-": "-.wall"}
+
+    def run(ctx):
+        from hypnotoad.core import equilibrium as E
+
+        fn = transform.recompile(E.EquilibriumRegion.getSqrtPoloidalDistanceFunc, report=None)
+        L, N, Nn, kw, f = _sqrt_setup(ctx, case, fn)
+        kw2 = {k.replace("lower", "UP").replace("upper", "lower").replace("UP", "upper"): v for k, v in kw.items()}
+        f2 = fn(region(), L, N, Nn, **kw2)
+        u = lambda x: x[()] if isinstance(x, numpy.ndarray) else x
+        i = ctx.real("i")
+        ctx.assume({"inside": And(i > 0, i < N), "below": i < 0, "above": i > N}[zone])
+        a, b = u(f(i)), u(f2(N - i))
+        with spec_mode():
+            ctx.oblige(a + b == L, "s(i) + s_mirrored(N-i) = L (%s)" % zone)
+
+    return run
+
+
 def sqrt_raise_ok(path):
     return isinstance(path.exc, ValueError)
 
@@ -200,8 +270,123 @@ def check_monotonic_cases(S):
     S.static_vc("_checkMonotonic", FN_CHK, "raises iff some consecutive pair decreases; checks exactly indices -extend_lower..2ny+extend_upper (%d cases)" % n, not bad, detail=repr(bad[:2]), kind="native-all-classes", model=bad[0] if bad else None)
 
 
+class Tok:
+    """The function object a recorder stub hands back; calling it yields a tagged value."""
+
+    def __init__(self, name, k):
+        self.name, self.k = name, k
+
+    def __call__(self, i):
+        return ("value of", self, i)
+
+
+SPACING_KEYS = ("sqrt_a_lower", "sqrt_b_lower", "sqrt_a_upper", "sqrt_b_upper", "monotonic_d_lower", "monotonic_d_upper", "nonorthogonal_orthogonal_d_lower", "nonorthogonal_orthogonal_d_upper")
+
+
+def wiring_region(ctx, start_wall, end_wall):
+    """EquilibriumRegion skeleton whose helper functions are recorder stubs (their own
+    contracts are the other C10 obligations); every number it holds is symbolic."""
+    from hypnotoad.core import equilibrium as E
+
+    r = object.__new__(E.EquilibriumRegion)
+    r.calls = []
+    pre, ny_total = ctx.real("N_norm_prefactor"), ctx.real("ny_total")
+    ctx.assume(And(pre > 0, ny_total >= 1))
+    r.user_options = types.SimpleNamespace(N_norm_prefactor=pre, orthogonal=True, poloidal_spacing_method="sqrt", poloidalfunction_diagnose=False, sfunc_checktol=1.0e-13)
+    r.ny_total = ny_total
+    r.spacings = {k: ctx.real("sp_" + k) for k in SPACING_KEYS}
+    r.getSpacings = lambda: dict(r.spacings)
+    r.sin_angle_at_start, r.sin_angle_at_end = ctx.real("sin_start"), ctx.real("sin_end")
+    r.wallSurfaceAtStart = (lambda p: [0.0, 1.0]) if start_wall else None
+    r.wallSurfaceAtEnd = (lambda p: [0.0, 1.0]) if end_wall else None
+    r.psi = None
+    r.name = "r"
+
+    def rec(name):
+        def f(*a, **k):
+            tok = Tok(name, len(r.calls))
+            r.calls.append((name, a, k, tok))
+            return tok
+
+        return f
+
+    for nm in ("getSqrtPoloidalDistanceFunc", "getMonotonicPoloidalDistanceFunc", "getLinearPoloidalDistanceFunc", "_checkMonotonic"):
+        setattr(r, nm, rec(nm))
+    return r, pre * ny_total
+
+
+def same(a, b):
+    from vc.sym import lift
+
+    return lift(a).t.eq(lift(b).t) if isinstance(a, Sym) or isinstance(b, Sym) else a == b
+
+
+def make_fixed_spacing_run(method, explicit):
+    def run(ctx):
+        from hypnotoad.core import equilibrium as E
+
+        r, N_norm = wiring_region(ctx, True, True)
+        npoints, dist = ctx.real("npoints"), ctx.real("distance")
+        kw = dict(spacing_lower=ctx.real("given_lower"), spacing_upper=ctx.real("given_upper")) if explicit else {}
+        out = E.EquilibriumRegion.getSfuncFixedSpacing(r, npoints, dist, method=method, **kw)
+        helper = {"sqrt": "getSqrtPoloidalDistanceFunc", "monotonic": "getMonotonicPoloidalDistanceFunc", "linear": "getLinearPoloidalDistanceFunc"}[method]
+        with spec_mode():
+            ctx.oblige(TRUE(len(r.calls) == 2 and r.calls[0][0] == helper and r.calls[1][0] == "_checkMonotonic"), "one spacing function of the requested method is built, then checked")
+            name, a, k, tok = r.calls[0]
+            ctx.oblige(TRUE(out is tok), "the function returned is the one that was built and checked")
+            ctx.oblige(TRUE(same(a[0], dist)), "total length = the contour length passed in")
+            ctx.oblige(a[1] == npoints - 1, "last index = npoints-1")
+            if method != "linear":
+                ctx.oblige(a[2] == N_norm, "normalisation count N_norm = N_norm_prefactor*ny_total")
+                ctx.oblige(a[2] == r.ny_total, "twin: prefactor dropped", kind="must-fail")
+            if method == "monotonic":
+                want = (kw["spacing_lower"], kw["spacing_upper"]) if explicit else (r.spacings["monotonic_d_lower"], r.spacings["monotonic_d_upper"])
+                ctx.oblige(TRUE(same(k["d_lower"], want[0]) and same(k["d_upper"], want[1])), "end gradients: the explicitly given ones, else the region's monotonic_d_lower/upper (lower to lower, upper to upper)")
+            if method == "sqrt":
+                ctx.oblige(TRUE(all(same(k[x], r.spacings["sqrt_" + x]) for x in ("a_lower", "b_lower", "a_upper", "b_upper"))), "sqrt coefficients a/b lower/upper passed to the matching parameters")
+            cname, ca, ck, _ = r.calls[1]
+            ctx.oblige(TRUE(ca[0][0][0] is tok and same(ck["total_distance"], dist)), "_checkMonotonic is applied to that function over the full contour length")
+
+    return run
+
+
+def make_perp_spacing_run(start_wall, end_wall, explicit):
+    def run(ctx):
+        from hypnotoad.core import equilibrium as E
+
+        r, N_norm = wiring_region(ctx, start_wall, end_wall)
+        N = ctx.real("N")
+        sperp_total = ctx.real("s_perp_total")
+        s_of_sperp = lambda x: ("s_of_sperp", x)
+        seen = []
+
+        class Contour:
+            def interpSSperp(self, vec, psi=None):
+                seen.append(vec)
+                return s_of_sperp, sperp_total
+
+        vec = object()
+        kw = dict(spacing_lower=ctx.real("given_lower"), spacing_upper=ctx.real("given_upper")) if explicit else {}
+        sfunc, sperp_func = E.EquilibriumRegion.getSfuncFixedPerpSpacing(r, N, Contour(), vec, True, **kw)
+        with spec_mode():
+            ctx.oblige(TRUE(seen == [vec] and len(r.calls) == 1 and r.calls[0][0] == "getMonotonicPoloidalDistanceFunc"), "one monotonic function of the perpendicular distance along the given surface direction")
+            name, a, k, tok = r.calls[0]
+            lo = kw["spacing_lower"] if explicit else r.spacings["monotonic_d_lower"]
+            up = kw["spacing_upper"] if explicit else r.spacings["monotonic_d_upper"]
+            ctx.oblige(TRUE(same(a[0], sperp_total)), "total length = total perpendicular distance")
+            ctx.oblige(a[1] == N - 1, "last index = N-1")
+            ctx.oblige(a[2] == N_norm, "normalisation count N_norm = N_norm_prefactor*ny_total (the same normalised index as every other spacing function)")
+            ctx.oblige(a[2] == r.ny_total, "twin: prefactor dropped", kind="must-fail")
+            ctx.oblige(k["d_lower"] == (lo if start_wall else lo * r.sin_angle_at_start), "lower end gradient: requested spacing, projected by sin(angle) at an X-point end")
+            ctx.oblige(k["d_upper"] == (up if end_wall else up * r.sin_angle_at_end), "upper end gradient: requested spacing, projected by sin(angle) at an X-point end")
+            ctx.oblige(TRUE(sperp_func is tok and sfunc(3) == ("s_of_sperp", ("value of", tok, 3))), "results: s(i) = s_of_sperp(sperp_func(i)), and the perpendicular-distance function itself")
+        return sfunc
+
+    return run
+
+
 def build(S):
-    S.under_contract(FN_MONO, FN_SQRT, FN_LIN, FN_CHK, E_ + "combineSfuncs", E_ + "getSfuncFixedSpacing")
+    S.under_contract(FN_MONO, FN_SQRT, FN_LIN, FN_CHK, E_ + "combineSfuncs", E_ + "getSfuncFixedSpacing", E_ + "getSfuncFixedPerpSpacing")
     S.assume("N, N_norm treated as reals >= 1; float literals read as exact decimals (source recompiled through the literal-lifting transform)")
     S.assume("concave branch of getMonotonicPoloidalDistanceFunc (brentq, logarithms), end-gradient coefficients and interior monotonicity of the sqrt functions, combineSfuncs weights: bounded numerical lattice only; strictness of the final point order is enforced by PsiContour.get_distance (C05)")
     check_monotonic_cases(S)
@@ -212,6 +397,25 @@ def build(S):
         S.contract("monotonic[convex,i>N]", FN_MONO, run_mono_extrap(S, "upper"), shape="scalar", feas_timeout_ms=4000)
         for which in ((), ("b_lower",), ("b_upper",), ("b_lower", "b_upper"), ("b_lower", "a_lower"), ("b_upper", "a_upper"), ("b_lower", "a_lower", "b_upper", "a_upper")):
             S.contract("sqrt[%s]" % ",".join(which), FN_SQRT, run_sqrt_ends(which), expected_exceptions=(ValueError,), raises_ok=sqrt_raise_ok, shape="scalar", feas_timeout_ms=4000, assume_safety="N/N_norm>0 and the gradient-sign guards of the function hold on the path")
+        AS = "N/N_norm>0 and the gradient-sign guards of the function hold on the path"
+        for case, side in (("wall.wall", "lower"), ("wall.wall", "upper"), ("X.wall", "upper"), ("wall.X", "lower"), ("-.wall", "lower"), ("wall.-", "upper")):
+            S.contract("sqrt-extrapolation[%s,%s]" % (case, side), FN_SQRT, run_sqrt_extrap(case, side), expected_exceptions=(ValueError,), raises_ok=sqrt_raise_ok, shape="scalar", feas_timeout_ms=4000, assume_safety=AS)
+        add_mirror(S)
+        for method in ("sqrt", "monotonic", "linear"):
+            for explicit in (False, True):
+                S.contract("getSfuncFixedSpacing[%s%s]" % (method, ",explicit spacings" if explicit else ""), E_ + "getSfuncFixedSpacing", make_fixed_spacing_run(method, explicit), shape="symbolic npoints, distance, N_norm_prefactor, ny_total; helper functions are recorder stubs")
+        for sw in (True, False):
+            for ew in (True, False):
+                for explicit in (False, True):
+                    S.contract("getSfuncFixedPerpSpacing[%s.%s%s]" % ("wall" if sw else "X", "wall" if ew else "X", ",explicit spacings" if explicit else ""), E_ + "getSfuncFixedPerpSpacing", make_perp_spacing_run(sw, ew, explicit), shape="symbolic N, N_norm_prefactor, ny_total, spacings, angles; interpSSperp / monotonic helper are recorder stubs")
+
+
+def add_mirror(S):
+    AS = "N/N_norm>0 and the gradient-sign guards of the function hold on the path"
+    zones = {"wall.wall": ("inside", "below", "above"), "X.wall": ("inside", "above"), "wall.X": ("inside", "below"), "-.wall": ("inside", "below"), "wall.-": ("inside", "above")}
+    for case, zs in zones.items():
+        for z in zs:
+            S.contract("sqrt-spacing mirror[%s,%s]" % (case, z), FN_SQRT, run_sqrt_mirror(case, z), expected_exceptions=(ValueError,), raises_ok=sqrt_raise_ok, shape="scalar", feas_timeout_ms=4000, assume_safety=AS)
 
 
 def post(S):
